@@ -62,6 +62,89 @@ def user_names(d, case=None):
     return out
 
 
+def activity_problems(rec_obj, check_presence=True):
+    """one activity per update is checked by the caller; here: every displayed tensor gets a point with one
+    coordinate per rank of that tensor as displayed, naming an element that exists in it; stamps collected"""
+    import minifiber
+    probs, stamps = [], []
+    for canvas, points, st in rec_obj.activities:
+        if len(points) != len(canvas.tensors):
+            probs.append("activity with %d points for %d displayed tensors" % (len(points), len(canvas.tensors)))
+            continue
+        for t, p in zip(canvas.tensors, points):
+            if not isinstance(p, tuple) or len(p) != len(t.getRankIds()):
+                probs.append("tensor %s displayed with ranks %r gets the point %r" % (t.name, t.getRankIds(), p))
+                continue
+            if not check_presence:
+                continue
+            # the point must name a path of the displayed tensor (inputs: an existing element)
+            f = t.getRoot()
+            ok = True
+            for c in p:
+                if not isinstance(f, minifiber.Fiber):
+                    ok = False
+                    break
+                q = f.lookup(c)
+                if q is None:
+                    ok = False
+                    break
+                f = q
+            if not ok:
+                probs.append("point %r is not an element of the displayed tensor %s%r" % (p, t.name, t.getRankIds()))
+        stamps.append(repr(st))
+        if len(probs) > 5:
+            break
+    return probs, stamps
+
+
+def activity_slot_problems(tree, canvases):
+    """every coordinate slot of an addActivity point must be filled with the loop variable of the rank that the
+    displayed tensor has at that slot (plain variables only; index-math expressions are skipped)"""
+    calls = []
+
+    def visit(s):
+        if s[0] == "SBlock":
+            for x in s[1]:
+                visit(x)
+        elif s[0] == "SFor":
+            visit(s[3])
+        elif s[0] == "SIf":
+            visit(s[2])
+            for b in s[4]:
+                visit(b)
+            if s[5] is not None:
+                visit(s[5])
+        elif s[0] == "SExpr" and s[1][0] == "EMethod" and s[1][2] == "addActivity":
+            calls.append(s[1])
+    visit(tree)
+    probs = []
+
+    def name_of(e):
+        if e[0] == "EVar":
+            return e[1]
+        if e[0] == "ETuple":
+            parts = [name_of(x) for x in e[1]]
+            return None if any(p is None for p in parts) else "".join(parts)
+        return None
+    for call, canvas in zip(calls, canvases):
+        args = [a for k, a in zip(call[3], call[4]) if k is None]
+        for t, a in zip(canvas.tensors, args):
+            if a[0] != "ETuple":
+                continue
+            ids = t.getRankIds()
+            if len(a[1]) != len(ids):
+                probs.append("tensor %s%r gets a point of %d coordinates" % (t.name, ids, len(a[1])))
+                continue
+            for rid, el in zip(ids, a[1]):
+                nm = name_of(el)
+                # a dynamically partitioned rank is displayed unsplit; its bottom-level variable carries the absolute coordinate
+                base = rid[:-1].rstrip("0123456789") if rid.endswith("I") and rid[:-1][-1:].isdigit() else rid
+                if nm is not None and nm != rid.lower() and nm != base.lower() + "0":
+                    probs.append("tensor %s is displayed with ranks %r but its activity point is %s" % (t.name, ids, [name_of(x) for x in a[1]]))
+                    break
+    return probs
+
+
 def rollup_check(metrics, tinfo):
     """independent roll-up of the executed dump: sum over blocks of max over components of the sum over the
     block's Einsums of metrics[e][c]["time"]; compared with metrics["time"] as the program computed it"""
@@ -138,9 +221,16 @@ def make_record(gen, idx, case, d, mode, nexec, rng, hashseed, want_tree=True, w
                 ex["cmp"] = gens.compare(case, r, inputs) if r.ok else []
                 ex["outputs"] = {k: [[list(p), v] for p, v in pts.items()] for k, pts in r.outputs.items()}
                 ex["activities"] = len(r.rec.activities)
-                ex["act_points"] = [[len(p) if isinstance(p, tuple) else -1 for p in pts] for _, pts, _ in r.rec.activities[:2000]]
-                ex["act_stamps"] = [repr(st) for _, _, st in r.rec.activities[:2000]]
-                ex["canvas_ranks"] = [[len(t.getRankIds()) for t in c.tensors] for c in r.rec.canvases]
+                ex["updates"] = r.rec.updates
+                if r.ok and r.rec.canvases:
+                    single = all(len(e["terms"]) == 1 for e in case["eins"]) and "flatten" not in c.text
+                    ap, stamps = activity_problems(r.rec, check_presence=single)
+                    ex["act_problems"] = ap[:5]
+                    if "tree" in rec:
+                        ap = ap + activity_slot_problems(rec["tree"], r.rec.canvases)
+                        ex["act_problems"] = ap[:5]
+                    ex["dup_stamps"] = len(stamps) - len(set(stamps))
+                    ex["stamp_sample"] = stamps[:3]
                 if ref_text is not None:
                     case0 = dict(case); case0["mapping"] = {k: v for k, v in (case.get("mapping") or {}).items() if k == "rank-order"}
                     r0 = gens.run_text(ref_text, case0, inputs)
